@@ -1056,10 +1056,23 @@ static void gen_expr(Node *node) {
     gen_expr(node->cas_addr);
     push();
     gen_expr(node->cas_new);
+
+    // cmpxchg works on general purpose registers, so float and
+    // double objects are compared and exchanged as bit patterns.
+    Type *obj_ty = node->cas_addr->ty->base;
+    if (obj_ty->kind == TY_FLOAT)
+      println("  movd %%xmm0, %%eax");
+    else if (obj_ty->kind == TY_DOUBLE)
+      println("  movq %%xmm0, %%rax");
     push();
     gen_expr(node->cas_old);
     println("  mov %%rax, %%r8");
-    load(node->cas_old->ty->base);
+    if (obj_ty->kind == TY_FLOAT)
+      println("  mov (%%rax), %%eax");
+    else if (obj_ty->kind == TY_DOUBLE)
+      println("  mov (%%rax), %%rax");
+    else
+      load(node->cas_old->ty->base);
     pop("%rdx"); // new
     pop("%rdi"); // addr
 
